@@ -242,6 +242,16 @@ func runC06(r *run) {
 			r.violate(violation{What: "attribute values contributed raw control bytes or line breaks", Input: encDescribe(c), Actual: fmt.Sprintf("%q", plain)})
 			continue
 		}
+		// the record without its sequences is the layout the model states without any colour (Model/Layout, theorem
+		// layout_without_escapes); the remover of the theorem, this oracle's expression and the library's own
+		// StripEscapes agree on what "removed" means for these records
+		r.emit("Q strip "+hx(p), hx(plain))
+		if lib := slog.StripEscapes(string(p)); lib == string(plain) {
+			r.count("library StripEscapes = SGR expression")
+		} else {
+			r.count("library StripEscapes differs from the SGR expression")
+		}
+		r.emit("LAY"+strings.TrimPrefix(c.line, "ENC"), hx(plain))
 		// layout of the first line
 		first := string(plain)
 		if k := strings.IndexByte(first, '\n'); k >= 0 {
